@@ -69,7 +69,7 @@ pub fn parts_of(_t: &str) -> Vec<Vec<(char, Vec<u8>)>> {
 }
 
 const LITS: &[&str] = &["/", "a", "ab", "abc", "b", ".", "-", "é", "ée", "日", "/x", "x.y", "\\{", "\\}", "\\(", "\\)", "\\\\", "/a/", "//", "m", "/m/", "/a", "/b"];
-const NAMES: &[&str] = &["a", "b", "id", "id2", "w", "v", "a-b"];
+const NAMES: &[&str] = &["a", "b", "id", "id2", "w", "v", "a-b", "template", "inserted", "conflicts", "constraint"];
 const CONS: &[&str] = &["alpha", "nota", "even", "u8", "hasslash", "bool"];
 
 /// structured, mostly valid template from tiny colliding pools
@@ -131,6 +131,23 @@ pub fn template(rng: &mut Rng, junk: bool) -> String {
             s.push('/');
         }
         s.push(')');
+    }
+    // a group around an arbitrary stretch of the text — also inside braces, across a parameter boundary, inside a name
+    if rng.chance(1, 8) {
+        let cuts: Vec<usize> = (1..=s.len()).filter(|i| s.is_char_boundary(*i)).collect();
+        if cuts.len() >= 2 {
+            let a = *rng.pick(&cuts);
+            let b = *rng.pick(&cuts);
+            let (a, b) = (a.min(b), a.max(b));
+            if a < b {
+                s.insert(b, ')');
+                s.insert(a, '(');
+            }
+        }
+    }
+    // white space and control bytes are ordinary literal text
+    if rng.chance(1, 12) {
+        s.push_str(rng.lit(&[" ", "\t", "\u{a0}", " \n", "%20", "\u{7f}", "  "]));
     }
     s
 }
